@@ -5,7 +5,8 @@
 From Coq Require Import List NArith Lia Bool.
 From RTA.Model Require Import Base FixedPoint Analyses Ros2 Supply.
 From RTA.Spec Require Import Exhaustive.
-From RTA.Proofs Require Import ExhFP ExhEDF SupplyProofs MonoProofs.
+From RTA.Model Require Import Arrival Wcet Demand Eval WellFormed.
+From RTA.Proofs Require Import ExhFP ExhEDF SupplyProofs MonoProofs MonoRos.
 
 (* ---- fixed priority: larger blocking, larger RBFs (tua and interfering), all four analyses ---- *)
 Theorem C17_fp_generic_monotone : forall dbg B B' rem tua tua' hp hp' steps steps' limit,
@@ -83,5 +84,83 @@ Theorem C17_event_source_limit_independent : forall sbf st, galois sbf st -> sbf
   forall demand steps, mono demand -> steps_exact demand steps -> forall dbg limit limit' R, limit <= limit' ->
   rta_event_source dbg sbf st limit demand steps = ROk R -> rta_event_source dbg sbf st limit' demand steps = ROk R.
 Proof. exact rta_event_source_limit. Qed.
-(* not covered by a theorem: monotonicity of rta_timer / rta_polling_point_callback / rta_processing_chain and of the
-   bw subchain analysis (their pruned offset sets: see C07); these are exercised by the pair oracle of this check only *)
+(* ---- ECRTS'19 timer / polling-point / processing-chain analyses.  They are NOT monotone in general: with a NON-SCALAR cost
+        model of the analysed callback, raising the WCET of one frame raises least_wcet_in_interval, which shortens the interval
+        A + R - own_wcet + 1 in which other callbacks interfere, and the bound DROPS (known finding C17-least-wcet; replayed on
+        the crate: pp/timer/chain 6 -> 5).  For scalar cost models -- larger WCETs of the analysed callback and of the chain's
+        prefix, larger arrival curve (more jitter, shorter period), more interference (added callbacks), larger blocking bound,
+        weaker supply -- they are monotone, and an Ok result never depends on the limit. ---- *)
+Theorem C17_timer_monotone_scalar : forall sbf st sbf' st', galois sbf st -> galois sbf' st' -> ple sbf' sbf ->
+  sbf 0 = 0 -> sbf' 0 = 0 -> lipschitz sbf -> lipschitz sbf' ->
+  forall dbg (na na' : N -> N) C C' steps steps' intf intf' B B' limit,
+  ple na na' -> ple intf intf' -> B <= B' -> mono na -> mono na' -> mono intf -> mono intf' ->
+  steps_exact na steps -> steps_exact na' steps' -> na' 0 = 0 -> 0 < na 1 -> 1 <= C -> C <= C' ->
+  rle (rta_timer dbg sbf st limit (fun d => C * na d) (fun d => if 0 <? na d then C else 0) steps intf B)
+      (rta_timer dbg sbf' st' limit (fun d => C' * na' d) (fun d => if 0 <? na' d then C' else 0) steps' intf' B').
+Proof. exact timer_mono_scalar. Qed.
+Theorem C17_polling_point_monotone_scalar : forall sbf st sbf' st', galois sbf st -> galois sbf' st' -> ple sbf' sbf ->
+  sbf 0 = 0 -> sbf' 0 = 0 -> lipschitz sbf -> lipschitz sbf' ->
+  forall dbg (na na' : N -> N) C C' steps steps' intf intf' limit,
+  ple na na' -> ple intf intf' -> mono na -> mono na' -> mono intf -> mono intf' ->
+  steps_exact na steps -> steps_exact na' steps' -> na' 0 = 0 -> 0 < na 1 -> 1 <= C -> C <= C' ->
+  rle (rta_pp dbg sbf st limit (fun d => C * na d) (fun d => if 0 <? na d then C else 0) steps intf)
+      (rta_pp dbg sbf' st' limit (fun d => C' * na' d) (fun d => if 0 <? na' d then C' else 0) steps' intf').
+Proof. exact pp_mono_scalar. Qed.
+(* a chain whose callbacks share the source's arrival curve (as every real chain does) *)
+Theorem C17_chain_monotone_scalar : forall sbf st sbf' st', galois sbf st -> galois sbf' st' -> ple sbf' sbf ->
+  sbf 0 = 0 -> sbf' 0 = 0 -> lipschitz sbf -> lipschitz sbf' ->
+  forall dbg (na na' : N -> N) Cl Cl' Cp Cp' (full full' : N -> N) fsteps fsteps' (other other' : N -> N) limit,
+  (forall d, full d = Cp * na d + Cl * na d) -> (forall d, full' d = Cp' * na' d + Cl' * na' d) ->
+  ple na na' -> ple other other' -> mono na -> mono na' -> mono other -> mono other' ->
+  steps_exact full fsteps -> steps_exact full' fsteps' -> na' 0 = 0 -> 0 < na 1 -> 1 <= Cl -> Cl <= Cl' -> Cp <= Cp' ->
+  rle (rta_chain dbg sbf st limit (fun d => Cl * na d) (fun d => if 0 <? na d then Cl else 0) (fun d => Cp * na d) full fsteps other)
+      (rta_chain dbg sbf' st' limit (fun d => Cl' * na' d) (fun d => if 0 <? na' d then Cl' else 0) (fun d => Cp' * na' d) full' fsteps' other').
+Proof. exact chain_mono_scalar. Qed.
+(* the same on the public entry points *)
+Theorem C17_pp_entry_point_monotone : forall dbg sb sb' ab ab' C C' intf intf' limit,
+  wf_sb sb -> wf_sb sb' -> ple (Supply.sbf sb') (Supply.sbf sb) -> wf_ab ab -> wf_ab ab' -> steps_exact_class ab -> steps_exact_class ab' ->
+  ple (na ab) (na ab') -> 0 < na ab 1 -> wf_rb intf -> wf_rb intf' -> ple (sn intf) (sn intf') -> 1 <= C -> C <= C' ->
+  rle (e_pp dbg sb (RBF ab (Scalar C)) intf limit) (e_pp dbg sb' (RBF ab' (Scalar C')) intf' limit).
+Proof. exact e_pp_mono_scalar. Qed.
+Theorem C17_timer_entry_point_monotone : forall dbg sb sb' ab ab' C C' intf intf' B B' limit,
+  wf_sb sb -> wf_sb sb' -> ple (Supply.sbf sb') (Supply.sbf sb) -> wf_ab ab -> wf_ab ab' -> steps_exact_class ab -> steps_exact_class ab' ->
+  ple (na ab) (na ab') -> 0 < na ab 1 -> wf_rb intf -> wf_rb intf' -> ple (sn intf) (sn intf') -> 1 <= C -> C <= C' -> B <= B' ->
+  rle (e_timer dbg sb (RBF ab (Scalar C)) intf B limit) (e_timer dbg sb' (RBF ab' (Scalar C')) intf' B' limit).
+Proof. exact e_timer_mono_scalar. Qed.
+(* the limit: any cost model whose interference interval is monotone (the C07 hypothesis) *)
+Theorem C17_timer_limit_independent : forall sbf st, galois sbf st -> sbf 0 = 0 -> lipschitz sbf ->
+  forall dbg own lw steps intf B limit limit' R, mono own -> mono intf -> steps_exact own steps ->
+  (forall off, mono (interference_interval lw off)) -> limit <= limit' ->
+  rta_timer dbg sbf st limit own lw steps intf B = ROk R -> rta_timer dbg sbf st limit' own lw steps intf B = ROk R.
+Proof. exact timer_limit. Qed.
+Theorem C17_polling_point_limit_independent : forall sbf st, galois sbf st -> sbf 0 = 0 -> lipschitz sbf ->
+  forall dbg own lw steps intf limit limit' R, mono own -> mono intf -> steps_exact own steps ->
+  (forall off, mono (interference_interval lw off)) -> limit <= limit' ->
+  rta_pp dbg sbf st limit own lw steps intf = ROk R -> rta_pp dbg sbf st limit' own lw steps intf = ROk R.
+Proof. exact pp_limit. Qed.
+Theorem C17_chain_limit_independent : forall sbf st, galois sbf st -> sbf 0 = 0 -> lipschitz sbf ->
+  forall dbg lastcb lw prefix full fsteps other limit limit' R, (forall d, full d = prefix d + lastcb d) ->
+  mono lastcb -> mono prefix -> mono other -> steps_exact full fsteps ->
+  (forall off, mono (interference_interval lw off)) -> limit <= limit' ->
+  rta_chain dbg sbf st limit lastcb lw prefix full fsteps other = ROk R -> rta_chain dbg sbf st limit' lastcb lw prefix full fsteps other = ROk R.
+Proof. exact chain_limit. Qed.
+(* known finding C17-least-wcet: multiframe (2 1 1) -> (2 2 1) on Periodic 3 against (Sporadic 5 2, cost 2): Ok 6 -> Ok 5 *)
+Definition C17_polling_point_nonscalar_refuted := pp_mono_refuted.
+Definition C17_timer_nonscalar_refuted := timer_mono_refuted.
+Definition C17_chain_nonscalar_refuted := chain_mono_multiframe_refuted.
+(* outside the well-formed inputs (a "chain" whose callbacks have different arrival curves, a non-super-additive interfering curve):
+   shortening the prefix callback's period 10 -> 9 lowers the bound 14 -> 10; kept as a witness that the step hypothesis of
+   chain_mono (every step of the chain's demand is a step of the last callback's demand) is needed *)
+Definition C17_chain_mixed_curves_refuted := chain_mono_refuted.
+
+(* ---- RTSS'21 busy-window-aware subchain analysis ---- *)
+Theorem C17_bw_subchain_monotone : forall sbf st sbf' st', galois sbf st -> galois sbf' st' -> ple sbf' sbf ->
+  sbf 0 = 0 -> sbf' 0 = 0 -> lipschitz sbf -> lipschitz sbf' ->
+  forall wl wl' sc, Forall2 cb_le wl wl' -> (forall cb, In cb wl -> cb_mono cb) -> (forall cb, In cb wl' -> cb_mono cb) ->
+  forall dbg limit, bw_wf wl sc -> bw_wf wl' sc ->
+  rle (bw_subchain dbg sbf st wl sc limit) (bw_subchain dbg sbf' st' wl' sc limit).
+Proof. exact bw_subchain_mono. Qed.
+Theorem C17_bw_subchain_limit_independent : forall dbg sbf st wl sc limit limit' R, galois sbf st -> sbf 0 = 0 -> lipschitz sbf ->
+  bw_wf wl sc -> limit <= limit' ->
+  bw_subchain dbg sbf st wl sc limit = ROk R -> bw_subchain dbg sbf st wl sc limit' = ROk R.
+Proof. exact bw_subchain_limit. Qed.
